@@ -59,13 +59,13 @@ impl Property for C07CancelAll {
     type Case = ChanCase;
     fn part(&self) -> &'static str { "cancel-all-sched" }
     fn strategy(&self, _tier: Tier) -> BoxedStrategy<ChanCase> {
-        case_strategy(Gen { kinds: &ALL_KINDS, max_streams: &[1, 2, 4], buffers: &[2, 4, 8], max_producers: 2, max_ops: 3, max_consumers: 3, retry: false, fresh_wakers: true, prefill: true, canceller: true, drop_on_end: true, ..Default::default() })
+        case_strategy(Gen { kinds: &ALL_KINDS, max_streams: &[1, 2, 4, 8, 16], buffers: &[2, 4, 8, 16, 64], max_producers: 2, max_ops: 3, max_consumers: 3, retry: false, fresh_wakers: true, prefill: true, canceller: true, drop_on_end: true, ..Default::default() })
             // (the Arc kinds block the sender -- sleeping -- when a listener's queue is full; a listener dropped during the run can be fed for ever by
             //  senders that raced with its removal [known finding R8]: there the streams are dropped after the run only)
             .prop_map(|mut c| { if c.kind.waits_when_full() { for k in c.consumers.iter_mut() { k.drop_on_end = false; } } c }).boxed()
     }
     fn decode(&self, u: &mut arbitrary::Unstructured<'_>) -> Option<ChanCase> {
-        let mut c = crate::props::uni::decode_chan(u, &Gen { kinds: &ALL_KINDS, max_streams: &[1, 2, 4], buffers: &[2, 4, 8], max_producers: 2, max_ops: 3, max_consumers: 3, retry: false, fresh_wakers: true, prefill: true, canceller: true, drop_on_end: true, ..Default::default() })?;
+        let mut c = crate::props::uni::decode_chan(u, &Gen { kinds: &ALL_KINDS, max_streams: &[1, 2, 4, 8, 16], buffers: &[2, 4, 8, 16, 64], max_producers: 2, max_ops: 3, max_consumers: 3, retry: false, fresh_wakers: true, prefill: true, canceller: true, drop_on_end: true, ..Default::default() })?;
         if c.kind.waits_when_full() { for k in c.consumers.iter_mut() { k.drop_on_end = false; } }
         Some(c)
     }
@@ -388,7 +388,7 @@ impl Property for C05Sched {
     fn strategy(&self, _tier: Tier) -> BoxedStrategy<ChanCase> {
         static KINDS: [ChanKind; 10] = [ChanKind::UniMoveAtomic, ChanKind::UniMoveFullSync, ChanKind::UniMoveCrossbeam, ChanKind::UniZcAtomic, ChanKind::UniZcFullSync,
                                         ChanKind::MultiArcAtomic, ChanKind::MultiArcFullSync, ChanKind::MultiArcCrossbeam, ChanKind::MultiOgreAtomic, ChanKind::MultiOgreFullSync];
-        (case_strategy(Gen { kinds: &KINDS, max_streams: &[1, 2, 4], buffers: &[2, 4, 8], max_producers: 2, max_ops: 4, max_consumers: 3, retry: true, handles: true, prefill: true, fresh_wakers: true, ..Default::default() }),
+        (case_strategy(Gen { kinds: &KINDS, max_streams: &[1, 2, 4, 8, 16], buffers: &[2, 4, 8, 16, 64], max_producers: 2, max_ops: 4, max_consumers: 3, retry: true, handles: true, prefill: true, fresh_wakers: true, ..Default::default() }),
          any::<u8>(), proptest::collection::vec(0u8..3, 3))
             .prop_map(|(mut c, mode, limits)| {
                 // a third of the cases tear the channel down with events still buffered
@@ -455,9 +455,9 @@ impl Property for C06EndAll {
     type Case = ChanCase;
     fn part(&self) -> &'static str { "graceful-end-all-sched" }
     fn strategy(&self, _tier: Tier) -> BoxedStrategy<ChanCase> {
-        case_strategy(Gen { kinds: &ALL_KINDS, max_streams: &[1, 2, 4], buffers: &[2, 4, 8], max_producers: 2, max_ops: 3, max_consumers: 3, retry: true, fresh_wakers: false, prefill: true, origins: true, end_all: true, ..Default::default() })
+        case_strategy(Gen { kinds: &ALL_KINDS, max_streams: &[1, 2, 4, 8, 16], buffers: &[2, 4, 8, 16, 64], max_producers: 2, max_ops: 3, max_consumers: 3, retry: true, fresh_wakers: false, prefill: true, origins: true, end_all: true, ..Default::default() })
     }
-    fn decode(&self, u: &mut arbitrary::Unstructured<'_>) -> Option<ChanCase> { crate::props::uni::decode_chan(u, &Gen { kinds: &ALL_KINDS, max_streams: &[1, 2, 4], buffers: &[2, 4, 8], max_producers: 2, max_ops: 3, max_consumers: 3, retry: true, fresh_wakers: false, prefill: true, origins: true, end_all: true, ..Default::default() }) }
+    fn decode(&self, u: &mut arbitrary::Unstructured<'_>) -> Option<ChanCase> { crate::props::uni::decode_chan(u, &Gen { kinds: &ALL_KINDS, max_streams: &[1, 2, 4, 8, 16], buffers: &[2, 4, 8, 16, 64], max_producers: 2, max_ops: 3, max_consumers: 3, retry: true, fresh_wakers: false, prefill: true, origins: true, end_all: true, ..Default::default() }) }
     fn cases(&self, tier: Tier) -> u32 { match tier { Tier::Quick => 4_000, Tier::Thorough => 80_000 } }
     fn run(&self, case: &ChanCase) -> RunReport {
         let run = execute(case, Epilogue { drain: true, ..Default::default() });
@@ -539,9 +539,9 @@ impl Property for C07EndOne {
     type Case = ChanCase;
     fn part(&self) -> &'static str { "end-one-sched" }
     fn strategy(&self, _tier: Tier) -> BoxedStrategy<ChanCase> {
-        case_strategy(Gen { kinds: &ALL_KINDS, max_streams: &[1, 2, 4], buffers: &[2, 4, 8], max_producers: 2, max_ops: 3, max_consumers: 3, retry: true, fresh_wakers: true, prefill: true, origins: true, end_one: true, ..Default::default() })
+        case_strategy(Gen { kinds: &ALL_KINDS, max_streams: &[1, 2, 4, 8, 16], buffers: &[2, 4, 8, 16, 64], max_producers: 2, max_ops: 3, max_consumers: 3, retry: true, fresh_wakers: true, prefill: true, origins: true, end_one: true, ..Default::default() })
     }
-    fn decode(&self, u: &mut arbitrary::Unstructured<'_>) -> Option<ChanCase> { crate::props::uni::decode_chan(u, &Gen { kinds: &ALL_KINDS, max_streams: &[1, 2, 4], buffers: &[2, 4, 8], max_producers: 2, max_ops: 3, max_consumers: 3, retry: true, fresh_wakers: true, prefill: true, origins: true, end_one: true, ..Default::default() }) }
+    fn decode(&self, u: &mut arbitrary::Unstructured<'_>) -> Option<ChanCase> { crate::props::uni::decode_chan(u, &Gen { kinds: &ALL_KINDS, max_streams: &[1, 2, 4, 8, 16], buffers: &[2, 4, 8, 16, 64], max_producers: 2, max_ops: 3, max_consumers: 3, retry: true, fresh_wakers: true, prefill: true, origins: true, end_one: true, ..Default::default() }) }
     fn cases(&self, tier: Tier) -> u32 { match tier { Tier::Quick => 4_000, Tier::Thorough => 80_000 } }
     fn run(&self, case: &ChanCase) -> RunReport {
         let run = execute(case, Epilogue { drain: true, ..Default::default() });
